@@ -280,6 +280,38 @@ func runC15(c *Ctx) {
 			}
 			c.count("kind_text_resembling_user")
 		}
+		// ... and version-1 tokens that ARE user tokens although no UserClaims object wrote them: issued by an account key
+		// through the generic claims with the kind set to user - formatted by both libraries, parsing back. (Tokens of
+		// kind user issued by a key of another role, or whose members do not fit a user, are not user tokens for the
+		// version-2 formatter, which reads them with the user decoder; whether the bundled version-1 formatter takes
+		// them is not something the property settles, and nothing is asked of them here.)
+		for _, srcForm := range []string{"", "v1 text"} {
+			g1 := v1.NewGenericClaims(kr.by["user"].pub)
+			g1.Type = v1.UserClaim
+			if srcForm == "v1 text" {
+				g1.Data["src"] = "192.0.2.0/24,10.0.0.0/8"
+			}
+			t1, err := g1.Encode(kr.by["account"].kp)
+			if err != nil {
+				continue
+			}
+			c.sum.Evaluations++
+			c.sum.ImplChecks++
+			inp := map[string]interface{}{"token": t1, "source_networks_spelled": srcForm}
+			for lib, f := range map[string]func(string, []byte) ([]byte, error){"bundled v1": v1.FormatUserConfig, "v2": jwt.FormatUserConfig} {
+				out, err := f(t1, useed)
+				if err != nil {
+					inp["library"], inp["error"] = lib, err.Error()
+					c.violation("C15: FormatUserConfig refuses a (version-1) user token and a user seed", inp)
+					continue
+				}
+				if got, perr := jwt.ParseDecoratedJWT(out); perr != nil || got != t1 {
+					inp["library"] = lib
+					c.violation("C15: the credentials file formatted for a (version-1) user token does not parse back to the token", inp)
+				}
+			}
+			c.count("v1_user_token_from_generic_claims")
+		}
 		for kind, tok := range validV1Tokens(kr) {
 			c.sum.ImplChecks++
 			_, err := v1.FormatUserConfig(tok, useed)
